@@ -48,6 +48,10 @@ func (b *payPerInterval) OnClient(node store.Node) error {
 	if b.MinBalance == nil {
 		return nil
 	}
+	if node.IsHost {
+		// Hosts earn credit, they are never billed: the minimum does not apply to them.
+		return nil
+	}
 	balance, err := b.Store.GetNodeBalance(node.ID)
 	if err != nil {
 		return err
